@@ -6,7 +6,9 @@ Histories of operations on one future of every kind, run on the real classes; th
 un-printable exception - C10_spec_holds_partial; the excluded histories are an OPEN FINDING the check reports with the
 signature "subscriber-exception-escapes") judges the implementation's observations on their own.  Families judged by direct expectations in the driver (no model run): suspended, futsubs
 (notification rounds of batches / items / blocking tasks, across threads, with debug options switched in mid-flight),
-futcopy (copies of ConstFuture / ErrorFuture)."""
+futcopy (copies of ConstFuture / ErrorFuture).  Round 5: the error OBJECT (tokens 8..13 = exceptions that mean something to the
+library, e.g. a genuine FutureIsAlreadyComputed about another future raised by a provider) and the ROUTE by which a provider /
+body comes by its outcome (`via`) are generator dimensions; the model and the theorems already quantify over every error token."""
 import hashlib
 import json
 import random
@@ -83,7 +85,16 @@ RULE = ("random operation histories (length 1-40, ops value/error/call/is_comput
         "raise_if_error(), a refused set_error / set_error(None) / set_value, subscribe + unsubscribe of a late handler on the "
         "completed target (the computed branch of the observer judges them); suspended: inside a scoped-value override / a user "
         "AsyncContext, options switched on while suspended; family 'futcopy' = ConstFuture / ErrorFuture / none_future "
-        "constructed by copy.copy, copy.deepcopy, pickle protocols 0-5, __reduce__ (10 values)")
+        "constructed by copy.copy, copy.deepcopy, pickle protocols 0-5, __reduce__ (10 values). "
+        "Round 5: error tokens 8..13 = exception objects with a meaning to the library (a genuine FutureIsAlreadyComputed raised by "
+        "a refused set_value on ANOTHER future, AsyncTaskCancelledError, BatchCancelledError, a second-hand error that already "
+        "failed another AsyncTask and carries _task/_type_/_traceback, AttributeError, TypeError) - raised by providers and task "
+        "bodies, held by ErrorFutures, handed to set_error (a third of all error choices); a lazy provider may raise StopIteration; "
+        "flag via = future|task|lazy (30% of the lazyOk/lazyErr/taskOk/taskErr histories): the provider / body gets its outcome by "
+        "calling / yielding a ConstFuture / ErrorFuture, by calling another asynq function, by reading another lazy Future / "
+        "yielding fn.asynq(); family 'errclass' = every error token x every source (provider, task body, ErrorFuture, set_error, "
+        "re-entering subscriber) x completer x route x DUMP_EXCEPTIONS (thorough: 3 more options), reads, refused sets, reset, "
+        "second completion")
 TRUSTED = [
     "hand-written Lean model AsynqModel.Lib.Futures tied to the code by this differential run only",
     "Python harness checks/c10.py (token <-> object identity mapping, read-only peek after each operation)",
@@ -91,6 +102,10 @@ TRUSTED = [
 ]
 ASSUMPTIONS = [
     "callbacks raise only Exception (BaseException from a subscriber is out of the statement's scope)",
+    "WHICH Exception a provider raises is not restricted (the statement says 'providers that return or raise'): library-made "
+    "exception objects (FutureIsAlreadyComputed about another future, BatchCancelledError, an error that already failed a task) "
+    "are generated; a task body raising plain GeneratorExit / AsyncTaskResult is NOT generated (AsyncTask._continue gives them "
+    "the meaning 'return': documented control flow, not an error outcome)",
     "providers / task bodies raise Exception subclasses (a BaseException-only error is passed to set_error / ErrorFuture / "
     "raised by a task body, not by a Future provider: Future._compute lets it through without completing, as any Python code would)",
     "a handler is subscribed at most once (ids are distinct); a handler that another handler unsubscribes before its own "
@@ -135,9 +150,26 @@ OPTION_NAMES = {"perf": "COLLECT_PERF_STATS", "dump": "DUMP_COMPUTED"}
 UNKNOWN = 999999
 CASE_TIMEOUT = 5     # a history takes milliseconds; a mutant that makes the scheduler spin must not cost 20 s per case
 NVALS = 9      # value tokens 0..9 (see make_objects)
-NERRS = 6      # error tokens 1..6
-RAISABLE = [1, 2, 3, 6]      # error tokens a Future provider may raise (Exception subclasses)
-TASK_RAISABLE = [1, 2, 3, 4, 6]   # a task body may also raise a BaseException-only error (AsyncTask stores it)
+NERRS = 6      # error tokens 1..6: classes of the harness (falsy, eq-all, BaseException-only, StopIteration, raising repr)
+# round 5: error tokens 8..13 = exception objects that MEAN something to the library (see Env.__init__): 8 a genuine
+# FutureIsAlreadyComputed (raised by a refused set_value on ANOTHER future), 9 AsyncTaskCancelledError (a GeneratorExit),
+# 10 BatchCancelledError, 11 a second-hand error (it already failed another AsyncTask: carries _task / _type_ / _traceback,
+# the hasattr branches of _accept_error / _continue_on_generator / qcore reraise), 12 AttributeError, 13 TypeError (classes
+# the library catches around its own steps).  Token 7 stays the library-made error of cancel() without argument (futsubs).
+SPECIAL_ERRS = [8, 9, 10, 11, 12, 13]
+ERR_TOKENS = [1, 2, 3, 4, 5, 6] + SPECIAL_ERRS
+RAISABLE = [1, 2, 3, 6, 8, 10, 11, 12, 13]      # error tokens a Future provider may raise (Exception subclasses)
+# a task body may also raise a BaseException-only error (AsyncTask stores it; 9 = AsyncTaskCancelledError goes through the
+# GeneratorExit clause of AsyncTask._continue)
+TASK_RAISABLE = [1, 2, 3, 4, 6, 8, 9, 10, 11, 12, 13]
+# the provider of a lazy Future that is read directly (one-future histories) may also raise StopIteration: an Exception like
+# any other there (inside a generator - family futsubs, route via=task/future of a task - PEP 479 would turn it into RuntimeError)
+LAZY_RAISABLE = RAISABLE + [5]
+
+
+def any_err(rng):
+    """an error token for set_error / ErrorFuture: a third of the time one of the library-meaningful objects"""
+    return rng.choice(SPECIAL_ERRS) if rng.random() < 0.34 else rng.randint(1, NERRS)
 BURST_SIZES = {"quick": [5, 9, 17, 33, 65, 129], "thorough": [5, 9, 17, 33, 65, 129, 257]}
 SUBS_TARGETS = ["item-value", "item-flush", "item-set", "item-cancel", "batch-flush", "batch-cancel", "batch-via-item",
                 "debugitem", "debugbatch", "task-blocked", "task-dep", "future-value", "future-in-task", "nested",
@@ -152,11 +184,11 @@ OPTSWHEN = ["whole", "mid", "mid2", "offmid"]
 
 def kind_arg(rng, kind):
     if kind == "lazyErr":
-        return rng.choice(RAISABLE)
+        return rng.choice(LAZY_RAISABLE)
     if kind == "taskErr":
         return rng.choice(TASK_RAISABLE)
     if kind == "error":
-        return 0 if rng.random() < 0.125 else rng.randint(1, NERRS)      # 0 = ErrorFuture(None)
+        return 0 if rng.random() < 0.125 else any_err(rng)      # 0 = ErrorFuture(None)
     if kind == "const":
         return rng.randint(0, NVALS - 3) if rng.random() < 0.8 else rng.choice([8, 9])   # 7 = "the future itself"
     return rng.randint(0, NVALS)
@@ -223,7 +255,7 @@ def gen_op(rng, ids, allow_reset=True, plain=False, quiet=1.0):
     if o == "setValue":
         return [o, rng.randint(0, NVALS)]
     if o == "setError":
-        return [o, 0 if rng.random() < 0.125 else rng.randint(1, NERRS)]      # 0 = set_error(None)
+        return [o, 0 if rng.random() < 0.125 else any_err(rng)]      # 0 = set_error(None)
     if o == "subscribe":
         return ids.subscribe_op(rng, plain)
     if o == "unsubscribe":
@@ -271,9 +303,17 @@ def gen_case(rng, size=None):
             case["opts"] = gen_opts(rng)
     if rng.random() < 0.06:
         case["weak"] = True
+    if kind in VIA_KINDS and rng.random() < 0.3:
+        case["via"] = rng.choice(VIAS)
+        if case["via"] == "task" and case["kind"] == ["lazyErr", 5]:
+            case["via"] = "lazy"     # StopIteration out of a generator body becomes RuntimeError (PEP 479)
+        if case["via"] != "plain" and case["kind"][1] == 6 and kind in ("taskOk",):
+            case["kind"][1] = 1      # a future as the value of a yielded dependency would be unwrapped once more
     return case
 
 
+VIAS = ["future", "task", "lazy"]
+VIA_KINDS = ("lazyOk", "lazyErr", "taskOk", "taskErr")
 COMPLETERS = [["value"], ["error"], ["call"], ["setValue", 2], ["setError", 2], ["setError", 0]]
 
 
@@ -334,6 +374,44 @@ def midflight_cases(tier):
                                     c["badarg"] = True
                                 if bad or toggles:
                                     res.append(c)
+    return res
+
+
+def errclass_cases(tier):
+    """round 5: WHICH exception object a provider / task body raises, an ErrorFuture holds or set_error() gets must not
+    matter: every error token (the library-meaningful ones included) x every place an error can come from x every
+    completing operation; a good and a raising subscriber, reads, a refused second set, reset_unsafe, second completion"""
+    res = []
+    subs = [["subscribe", 1, "good"], ["subscribe", 2, "raising"], ["subscribe", 3, "good"]]
+    reads = [["isComputed"], ["error"], ["value"], ["call"], ["raiseIfError"], ["error"], ["setValue", 1], ["setError", 1],
+             ["value"]]
+    for tok in ERR_TOKENS:
+        for kind, allowed in (("lazyErr", LAZY_RAISABLE), ("taskErr", TASK_RAISABLE), ("error", ERR_TOKENS)):
+            if tok not in allowed:
+                continue
+            for comp in ([["value"], ["error"], ["call"]] if kind != "error" else [["value"]]):
+                for second in (["value"], ["error"], ["setError", tok]):
+                    res.append({"kind": [kind, tok], "family": "errclass",
+                                "ops": subs + [list(comp)] + reads + [["reset"], list(second), ["error"], ["isComputed"]]})
+            if kind != "error":
+                # ... arriving by every route (see run_case1 `via`), and with the debug options that print / record it
+                for via in VIAS:
+                    if via == "task" and tok == 5:
+                        continue         # StopIteration out of a generator body becomes RuntimeError (PEP 479)
+                    for comp in (["value"], ["error"]):
+                        res.append({"kind": [kind, tok], "family": "errclass", "via": via,
+                                    "ops": subs + [list(comp)] + reads + [["reset"], ["value"], ["error"]]})
+                for opts in ([["DUMP_EXCEPTIONS"]] if tier == "quick" else
+                             [["DUMP_EXCEPTIONS"], ["DUMP_COMPUTED"], ["COLLECT_PERF_STATS"], ["DUMP_QUEUED_RESULTS"]]):
+                    res.append({"kind": [kind, tok], "family": "errclass", "opts": opts,
+                                "ops": subs + [["value"]] + reads})
+        # the same object handed to set_error() of every kind that can still be completed, and to a re-entering subscriber
+        for kind in ("lazyOk", "lazyErr", "lazySelfSet", "taskOk", "taskErr"):
+            res.append({"kind": [kind, 1], "family": "errclass",
+                        "ops": subs + [["setError", tok]] + reads + [["reset"], ["setError", tok], ["value"], ["error"]]})
+        res.append({"kind": ["lazyOk", 1], "family": "errclass",
+                    "ops": [["subscribe", 1, "reenter", "err", tok], ["subscribe", 2, "good"], ["value"], ["error"], ["reset"],
+                            ["setError", tok], ["value"]]})
     return res
 
 
@@ -403,6 +481,7 @@ def plan(tier, seed):
                                   "ops": [["subscribe", 1] + a, ["subscribe", 2] + b2, ["subscribe", 3, "good"], list(comp),
                                           ["reset"], ["setValue", 3], ["unsubscribe", 3], ["reset"], ["value"]]})
     cases += midflight_cases(tier)
+    cases += errclass_cases(tier)
     cases += futcopy_cases()
     for size in BURST_SIZES[tier]:
         cases += [burst_case(rng, size) for _ in range(12 if tier == "quick" else 40)]
@@ -559,7 +638,7 @@ def shrink(case):
     if case.get("special"):
         return
     ops = case["ops"]
-    extra = {k: case[k] for k in ("opts", "weak", "badarg") if case.get(k)}
+    extra = {k: case[k] for k in ("opts", "weak", "badarg", "via") if case.get(k)}
     for k in extra:
         yield dict({j: v for j, v in extra.items() if j != k}, kind=case["kind"], ops=ops)
     for i in range(len(ops)):
@@ -574,7 +653,7 @@ def shrink(case):
 def neighbours(case, rng):
     if case.get("special"):
         return
-    extra = {k: case[k] for k in ("opts", "weak", "badarg") if case.get(k)}
+    extra = {k: case[k] for k in ("opts", "weak", "badarg", "via") if case.get(k)}
     for k in KINDS:
         yield dict(extra, kind=[k, case["kind"][1] if k == case["kind"][0] else 1], ops=case["ops"])
     for _ in range(24):
@@ -700,6 +779,30 @@ class BadRepr(object):
         raise self.env.bad_repr_err
 
 
+def special_errors(futures):
+    """error tokens 8..13: exception OBJECTS with a meaning to the library (made through the public API)"""
+    import asynq
+    from asynq import batching
+    slot = futures.ConstFuture(("slot taken",))
+    try:
+        slot.set_value(("second",))          # refused: the library's own FutureIsAlreadyComputed, about ANOTHER future
+        refused = futures.FutureIsAlreadyComputed(slot)
+    except futures.FutureIsAlreadyComputed as e:
+        refused = e
+    used = UserErr("e11: already failed another task")
+
+    @asynq.asynq()
+    def fails():
+        raise used
+        yield
+    try:
+        fails()
+    except UserErr:
+        pass
+    return {8: refused, 9: asynq.AsyncTaskCancelledError("e9"), 10: batching.BatchCancelledError("e10"), 11: used,
+            12: AttributeError("e12"), 13: TypeError("e13")}
+
+
 class Env(object):
     """tokens <-> objects (by identity), the notification log and the subscriber callbacks; shared by the one-future
     histories and the futsubs family"""
@@ -723,6 +826,7 @@ class Env(object):
                      6: futures.ConstFuture(("inner",)), 7: ("placeholder for the future itself",), 8: Hostile(), 9: False}
         self.errs = {0: None, 1: UserErr("e1"), 2: FalsyErr("e2"), 3: EqAllErr("e3"), 4: BaseOnlyErr("e4"),
                      5: StopIteration("e5"), 6: HostileReprErr("e6")}
+        self.errs.update(special_errors(futures))
         self.cblog = []
         self.handlers = {}
         self._index()
@@ -933,15 +1037,38 @@ def run_case1(case):
     runs = [0]
     kind, arg = case["kind"]
 
-    if kind == "lazyOk":
-        def provider():
-            runs[0] += 1
+    via = case.get("via", "plain")
+    # HOW the provider / body comes by its outcome (the model says only THAT it returns v / raises e): plain = return /
+    # raise; future = it calls (a lazy Future) / yields (a task) a ConstFuture / ErrorFuture; task = it calls another
+    # asynq function synchronously (an error arrives second-hand, carrying _task); lazy = it reads another lazy Future
+    if via == "task" or (via == "lazy" and kind in ("taskOk", "taskErr")):
+        @asynq.asynq()
+        def inner_fn():
+            if kind in ("lazyErr", "taskErr"):
+                raise errs[arg]
             return vals[arg]
-        fut = futures.Future(provider)
-    elif kind == "lazyErr":
+            yield
+
+    def produce():
+        bad = kind in ("lazyErr", "taskErr")
+        if via == "future":
+            return (futures.ErrorFuture(errs[arg]) if bad else futures.ConstFuture(vals[arg]))()
+        if via == "task":
+            return inner_fn()
+        if via == "lazy":
+            def p2():
+                if bad:
+                    raise errs[arg]
+                return vals[arg]
+            return futures.Future(p2).value()
+        if bad:
+            raise errs[arg]
+        return vals[arg]
+
+    if kind in ("lazyOk", "lazyErr"):
         def provider():
             runs[0] += 1
-            raise errs[arg]
+            return produce()
         fut = futures.Future(provider)
     elif kind == "lazySelfSet":
         holder = []
@@ -956,18 +1083,17 @@ def run_case1(case):
         fut = futures.ConstFuture(vals[arg])
     elif kind == "error":
         fut = futures.ErrorFuture(errs[arg])
-    elif kind == "taskOk":
+    elif kind in ("taskOk", "taskErr"):
         @asynq.asynq()
         def body(*a):
             runs[0] += 1
-            return vals[arg]
-            yield
-        fut = body.asynq(*task_args)
-    elif kind == "taskErr":
-        @asynq.asynq()
-        def body(*a):
-            runs[0] += 1
-            raise errs[arg]
+            if via == "future":      # a dependency that is complete from construction: the task does not block
+                r = yield (futures.ErrorFuture(errs[arg]) if kind == "taskErr" else futures.ConstFuture(vals[arg]))
+                return r
+            if via == "lazy":        # ... an asynq function called with .asynq(): computed by the scheduler, in this call
+                r = yield inner_fn.asynq()
+                return r
+            return produce()
             yield
         fut = body.asynq(*task_args)
     else:
@@ -1066,6 +1192,8 @@ def run_case1(case):
         feats.append("task-with-unprintable-argument" + ("/completed-under-profiling" if perf_seen and completions else ""))
     if env.weak:
         feats.append("weak-subscribers+gc")
+    if via != "plain":
+        feats.append("via=%s/%s" % (via, kind))
     if True:
         feats.append("arg=%s%d" % ("e" if kind in ("lazyErr", "taskErr", "error") else "v", arg))
     nontrivial = None
